@@ -674,11 +674,11 @@ Proof.
   - eapply wp_mono; [apply (insert_lawful E debug ck cq HL k v w Hw) | |]; cbn beta.
     + intros r w' _. apply pp_ret.
     + intros w' (Hs & Hlg & _). split; [exact Hs|]. unfold logged in Hlg. rewrite Hlg, dropped_log_drops.
-      unfold ids_pair; cbn [fst snd]. rewrite app_nil_r. reflexivity.
+      unfold ids_pair; cbn [fst snd]. rewrite app_nil_r. perm_ids.
   - eapply wp_mono; [apply (insert_key_value_lawful E debug ck cq HL k v w Hw) | |]; cbn beta.
     + intros r w' _. apply pp_ret.
     + intros w' (Hs & Hlg & _). split; [exact Hs|]. unfold logged in Hlg. rewrite Hlg, dropped_log_drops.
-      unfold ids_pair; cbn [fst snd]. rewrite app_nil_r. reflexivity.
+      unfold ids_pair; cbn [fst snd]. rewrite app_nil_r. perm_ids.
   - eapply wp_mono; [apply (checked_insert_lawful E debug ck cq HL k v w Hw) | | intros ? []]; cbn beta.
     intros r w' _. apply pp_ret.
   - eapply wp_mono; [apply (get_lawful E ck cq HL q w Hw) | | intros ? []]; cbn beta.
@@ -823,11 +823,11 @@ Proof.
       apply (wp_cleans _ (flat_map (ids_pair E) (List.map (fun x => (x, tt)) rest))); [apply unwind_pairs_spec|].
       intros w3 Hs3 Hg3. unfold logged in Hlg2.
       assert (Hs : self w3 = self w) by congruence.
-      assert (Hd : dropped (log w3) = dropped (log w) ++ ids_pair E (k, tt) ++ F rest).
+      assert (Hd : dropped (log w3) = dropped (log w) ++ (idV E tt ++ idK E k) ++ F rest).
       { rewrite Hg3, dropped_log_drops, Hlg2, dropped_log_drops, Hd1, ids_pairs_unit.
-        unfold ids_pair; cbn [fst snd]. rewrite <- app_assoc. reflexivity. }
+        rewrite <- app_assoc. reflexivity. }
       unfold xpost, acct. rewrite Hs, Hd. split; [exact Hw|]. split; [reflexivity|]. split; [exact Ht|].
-      cbn [flat_map]. perm_ids.
+      cbn [flat_map]. change (ids_pair E (k, tt)) with (idK E k ++ idV E tt). perm_ids.
 Qed.
 
 Lemma sstep_panic_fact (o : sop) (w : world) :
@@ -838,10 +838,12 @@ Proof.
     try (exfalso; eapply Hne; reflexivity); apply pp_bind.
   - eapply wp_mono; [apply (s_insert_lawful E debug ck cq HL k w Hw) | |]; cbn beta.
     + intros r w' _. apply pp_ret.
-    + intros w' (Hs & Hlg & _). split; [exact Hs|]. unfold logged in Hlg. rewrite Hlg, dropped_log_drops. reflexivity.
+    + intros w' (Hs & Hlg & _). split; [exact Hs|]. unfold logged in Hlg. rewrite Hlg, dropped_log_drops.
+      unfold ids_pair; cbn [fst snd]. perm_ids.
   - eapply wp_mono; [apply (s_replace_lawful E debug ck cq HL k w Hw) | |]; cbn beta.
     + intros r w' _. apply pp_ret.
-    + intros w' (Hs & Hlg & _). split; [exact Hs|]. unfold logged in Hlg. rewrite Hlg, dropped_log_drops. reflexivity.
+    + intros w' (Hs & Hlg & _). split; [exact Hs|]. unfold logged in Hlg. rewrite Hlg, dropped_log_drops.
+      unfold ids_pair; cbn [fst snd]. perm_ids.
   - eapply wp_mono; [apply (s_contains_lawful E ck cq HL q w Hw) | | intros ? []]; cbn beta.
     intros r w' _. apply pp_ret.
   - eapply wp_mono; [apply (s_get_lawful E ck cq HL q w Hw) | | intros ? []]; cbn beta.
@@ -1813,7 +1815,7 @@ Lemma uf_insert_ii_U k v u (w : world) :
   wp (insert_ii E debug k v u) (fun r w' => invU w w' /\ fst r < len (self w')) (invU w) w.
 Proof.
   intros Hw Hu. unfold insert_ii. apply wp_bind.
-  apply wp_on_unwind_frame; [apply frame_unwind_pair|].
+  apply wp_on_unwind_frame; [apply frame_unwind_args|].
   eapply wp_mono; [apply (uf_scan kcls (test_k E k) (kcls k) w (uf_ttest_k E kcls qcls HT k) Hw) | |];
     cbn beta.
   - intros [i|] w' [Hs Hr].
@@ -1830,7 +1832,7 @@ Proof.
         apply keepk_invU; [exact Hu|]. eapply keepk_base; [exact Hs|].
         apply (keepk_set_slot w' i p (fst p, v) Hw' Hp'). reflexivity.
     + apply wp_bind. apply wp_get_len. apply wp_bind. apply wp_get_cap.
-      apply wp_bind. apply wp_on_unwind_frame; [apply frame_unwind_pair|].
+      apply wp_bind. apply wp_on_unwind_frame; [apply frame_unwind_args|].
       apply wp_bind. apply wp_dbg_assert.
       * intros _. apply wp_check_index.
         -- intros Hc. apply wp_bind. apply wp_p_write_checked.
@@ -1855,7 +1857,7 @@ Qed.
 Lemma uf_keepsU_insert_ii_for_full k v u : keepsU (insert_ii_for_full E k v u).
 Proof.
   intros w Hw Hu. unfold insert_ii_for_full. apply wp_bind.
-  apply wp_on_unwind_frame; [apply frame_unwind_pair|].
+  apply wp_on_unwind_frame; [apply frame_unwind_args|].
   eapply wp_mono; [apply (uf_scan kcls (test_k E k) (kcls k) w (uf_ttest_k E kcls qcls HT k) Hw) | |];
     cbn beta.
   - intros [i|] w' [Hs Hr].
@@ -1869,7 +1871,7 @@ Proof.
       * apply wp_bind. eapply wp_p_replace; [exact Hp'|]. apply wp_ret.
         apply keepk_invU; [exact Hu|]. eapply keepk_base; [exact Hs|].
         apply (keepk_set_slot w' i p (fst p, v) Hw' Hp'). reflexivity.
-    + apply wp_bind. apply wp_frame; [apply frame_drop_pair | |].
+    + apply wp_bind. apply wp_frame; [apply frame_drop_args | |].
       * intros _ w'' Hs''. apply wp_ret. apply invU_refl; [exact Hw | exact Hu | congruence].
       * intros w'' Hs''. apply invU_refl; [exact Hw | exact Hu | congruence].
   - intros w' Hs w'' Hs''. apply invU_refl; [exact Hw | exact Hu | congruence].
@@ -2226,7 +2228,8 @@ Proof.
   unfold clone_pair. apply wp_bind. apply wp_emit. apply wp_bind. apply wp_cbo_eq. simp_w.
   pose proof (HCK (cb w) (fst p)) as H.
   destruct (fst (cloneK E (cb w) (fst p))) as [k'|]; [|reflexivity].
-  apply wp_bind. apply wp_emit. apply wp_bind. apply wp_cbo; [|intros; reflexivity].
+  apply wp_bind. apply wp_emit. apply wp_bind. apply wp_on_unwind_frame; [apply frame_unwind_key|].
+  apply wp_cbo; [|intros s w'' Hs; exact Hs].
   intros v' s. apply wp_ret. simp_w. split; [reflexivity | exact H].
 Qed.
 
@@ -2673,6 +2676,7 @@ Notation world := (world key V cstate).
 Theorem op_clone_acct (src : map key V) body (w : world) :
   WF src -> WF (self w) -> cap src = cap (self w) ->
   let made := flat_map (ids_pair E) (clone_made E src (len src) 0 (cb w)) in
+  let orphan := clone_orphans E src (len src) 0 (cb w) in
   wp (replace_with E (clone_from_src E src) body)
      (fun r w' => r = body /\ WF (self w') /\ cap (self w') = cap (self w) /\ Tidy (self w') /\
                   len (self w') = len src /\ length (clone_made E src (len src) 0 (cb w)) = len src /\
@@ -2682,17 +2686,17 @@ Theorem op_clone_acct (src : map key V) body (w : world) :
                                  (Tidy (self w) -> lost = []))
      (fun w' =>
         (self w' = self w /\
-         exists d lost, dropped (log w') = dropped (log w) ++ d /\ Permutation (d ++ lost) made) \/
+         exists d, dropped (log w') = dropped (log w) ++ d /\ Permutation d (made ++ orphan)) \/
         (WF (self w') /\ cap (self w') = cap (self w) /\ Tidy (self w') /\ len (self w') = len src /\
          Permutation (owned E (self w')) made /\
          exists d lost, dropped (log w') = dropped (log w) ++ d /\
                         Permutation (d ++ lost) (owned E (self w)))) w.
 Proof.
-  intros Hsrc Hw Hc made.
+  intros Hsrc Hw Hc made orphan.
   pose proof (clone_acct_gen E src (cf_fresh w) Hsrc (cf_fresh_WF w) eq_refl) as Hb.
   rewrite cf_fresh_cap in Hb. specialize (Hb (eq_sym Hc)). cbv zeta in Hb.
   change (cb (cf_fresh w)) with (cb w) in Hb. change (log (cf_fresh w)) with (log w) in Hb.
-  rewrite cf_fresh_owned in Hb. fold made in Hb. cbn [app] in Hb.
+  rewrite cf_fresh_owned in Hb. fold made in Hb. fold orphan in Hb. cbn [app] in Hb.
   eapply wp_mono; [apply (cf_replace_with_gen E _ body _ _ w Hw Hb) | |]; cbn beta.
   - intros r w' (Hr & w1 & d & lost & (H1 & H2 & H3 & H4 & H5 & lb & H6 & H7) & Hs & Hd & HP & Ht).
     destruct (H7 (cf_fresh_Tidy w)) as [-> HT1]. rewrite app_nil_r in H6.
@@ -2701,8 +2705,9 @@ Proof.
     exists d, lost. split; [rewrite Hd, H5; reflexivity|]. split; [exact HP | exact Ht].
   - intros w' [(w1 & (d & lb & H1 & H2 & H3) & ->) |
                (w1 & d & lost & (H1 & H2 & H3 & H4 & H5 & lb & H6 & H7) & Hs & Hd & HP)].
-    + left. simp_w. split; [reflexivity|]. rewrite (H3 (cf_fresh_Tidy w)) in H2. rewrite app_nil_r in H2.
-      exists d, (owned E (self w1)). split; [exact H1 | perm_ids].
+    + left. simp_w. split; [reflexivity|]. destruct (H3 (cf_fresh_Tidy w)) as [-> Ho].
+      rewrite Ho in H2. cbn [app] in H2. rewrite app_nil_r in H2.
+      exists d. split; [exact H1 | exact H2].
     + right. destruct (H7 (cf_fresh_Tidy w)) as [-> HT1]. rewrite app_nil_r in H6.
       rewrite Hs. split; [exact H1|]. split; [exact H2|]. split; [exact HT1|].
       split; [exact H3|]. split; [exact H6|].
@@ -2710,24 +2715,37 @@ Proof.
 Qed.
 
 (* the conservation triple and the no-duplication headline for clone / clone_from *)
+Lemma cf_clone_orphans_nil (src : map key V) n : forall i s,
+  length (clone_made E src n i s) = n -> clone_orphans E src n i s = [].
+Proof.
+  induction n as [|n IH]; intros i s H; cbn [clone_made clone_orphans] in *; [reflexivity|].
+  destruct (nth_error (slots src) i) as [[p|]|]; try discriminate H.
+  destruct (clone_pair_res E p s) as [[p'|] s']; [|discriminate H].
+  cbn [length] in H. apply IH. lia.
+Qed.
+
 Corollary cf_op_clone_cpost (src : map key V) body (w : world) :
   WF src -> WF (self w) -> cap src = cap (self w) ->
   let made := flat_map (ids_pair E) (clone_made E src (len src) 0 (cb w)) in
-  wp (replace_with E (clone_from_src E src) body) (fun _ => cpostN E w made []) (cpostP E w made) w.
+  let orphan := clone_orphans E src (len src) 0 (cb w) in
+  wp (replace_with E (clone_from_src E src) body)
+     (fun _ => cpostN E w (made ++ orphan) []) (cpostP E w (made ++ orphan)) w.
 Proof.
-  intros Hsrc Hw Hc made.
-  eapply wp_mono; [apply (op_clone_acct src body w Hsrc Hw Hc) | |]; cbn beta; fold made.
-  - intros r w' (_ & H1 & H2 & H3 & _ & _ & H4 & d & lost & Hd & HP & Ht).
+  intros Hsrc Hw Hc made orphan.
+  eapply wp_mono; [apply (op_clone_acct src body w Hsrc Hw Hc) | |]; cbn beta; fold made; fold orphan.
+  - intros r w' (_ & H1 & H2 & H3 & _ & Hlen & H4 & d & lost & Hd & HP & Ht).
+    assert (Ho : orphan = []) by (apply cf_clone_orphans_nil; exact Hlen). rewrite Ho, app_nil_r.
     split; [exact H1|]. split; [exact H2|]. exists lost. split; [unfold acct; rewrite Hd; perm_ids|].
     intros HT. split; [apply Ht; exact HT | exact H3].
-  - intros w' [(Hs & d & lost & Hd & HP) | (H1 & H2 & H3 & _ & H4 & d & lost & Hd & HP)].
-    + apply (cpostP_exact E w w' made lost); rewrite ?Hs; auto. rewrite Hd. perm_ids.
-    + apply (cpostP_exact E w w' made lost); auto. rewrite Hd. perm_ids.
+  - intros w' [(Hs & d & Hd & HP) | (H1 & H2 & H3 & _ & H4 & d & lost & Hd & HP)].
+    + apply (cpostP_exact E w w' (made ++ orphan) []); rewrite ?Hs; auto. rewrite Hd. perm_ids.
+    + apply (cpostP_exact E w w' (made ++ orphan) (lost ++ orphan)); auto. rewrite Hd. perm_ids.
 Qed.
 
 Corollary cf_op_clone_NoDup (src : map key V) body (w : world) :
   WF src -> WF (self w) -> cap src = cap (self w) ->
-  NoDup (owned E (self w) ++ flat_map (ids_pair E) (clone_made E src (len src) 0 (cb w)) ++ dropped (log w)) ->
+  NoDup (owned E (self w) ++ (flat_map (ids_pair E) (clone_made E src (len src) 0 (cb w)) ++
+                              clone_orphans E src (len src) 0 (cb w)) ++ dropped (log w)) ->
   wp (replace_with E (clone_from_src E src) body)
      (fun _ w' => NoDup (owned E (self w') ++ dropped (log w')))
      (fun w' => NoDup (owned E (self w') ++ dropped (log w'))) w.
@@ -3211,6 +3229,7 @@ Notation world := (world K V T).
 Theorem clone_safe_acct (src : map K V) (w : world) :
   WF src -> WF (self w) -> len (self w) = 0 -> cap (self w) = cap src ->
   let made := flat_map (ids_pair E) (clone_made E src (len src) 0 (cb w)) in
+  let orphan := clone_orphans E src (len src) 0 (cb w) in
   wp (clone_from_src E src)
      (fun _ w' => (inv_post w w' /\ len (self w') = len src) /\
                   length (clone_made E src (len src) 0 (cb w)) = len src /\
@@ -3218,10 +3237,10 @@ Theorem clone_safe_acct (src : map K V) (w : world) :
                   exists lost, Permutation (owned E (self w') ++ lost) (owned E (self w) ++ made) /\
                                (Tidy (self w) -> lost = [] /\ Tidy (self w')))
      (fun w' => exists d lost, dropped (log w') = dropped (log w) ++ d /\
-                               Permutation (owned E (self w') ++ d ++ lost) (owned E (self w) ++ made) /\
-                               (Tidy (self w) -> lost = [])) w.
+                               Permutation (owned E (self w') ++ d ++ lost) (owned E (self w) ++ made ++ orphan) /\
+                               (Tidy (self w) -> lost = [] /\ owned E (self w') = [])) w.
 Proof.
-  intros Hsrc Hw Hl Hc made.
+  intros Hsrc Hw Hl Hc made orphan.
   eapply wp_mono;
     [apply wp_conj; [apply (clone_safe E src w Hsrc Hw Hl Hc) | apply (clone_acct_gen E src w Hsrc Hw Hl Hc)] | |];
     cbn beta.
@@ -3368,6 +3387,12 @@ Proof.
   apply cf_nid_bind; [apply cf_nid_cbd; intros; apply HdK|]. intros _.
   apply cf_nid_bind; [apply cf_nid_cbd; intros; apply HdV|]. intros _. apply cf_nid_ret.
 Qed.
+Lemma cf_nid_unwind_args k v : cf_nid (unwind_args E k v).
+Proof.
+  unfold unwind_args. apply cf_nid_bind; [apply cf_nid_emit|]. intros _.
+  apply cf_nid_bind; [apply cf_nid_cbd; intros; apply HdV|]. intros _.
+  apply cf_nid_bind; [apply cf_nid_cbd; intros; apply HdK|]. intros _. apply cf_nid_ret.
+Qed.
 Lemma cf_nid_drop_key k : cf_nid (drop_key E k).
 Proof.
   unfold drop_key. apply cf_nid_bind; [apply cf_nid_emit|]. intros _.
@@ -3386,14 +3411,14 @@ Proof. destruct o; cbn [drop_opt_val]; [apply cf_nid_drop_val | apply cf_nid_ret
 Lemma cf_nid_insert_ii k v u : cf_nid (insert_ii E debug k v u).
 Proof.
   unfold insert_ii. apply cf_nid_bind.
-  - apply cf_nid_on_unwind; [apply cf_nid_unwind_pair|]. apply cf_nid_scan. intros p.
+  - apply cf_nid_on_unwind; [apply cf_nid_unwind_args|]. apply cf_nid_scan. intros p.
     unfold test_k. apply cf_nid_cbk. intros; apply HeqK.
   - intros [i|].
     + destruct u; (apply cf_nid_bind; [apply cf_nid_p_replace|]; intros old; apply cf_nid_ret).
     + apply cf_nid_bind; [apply cf_nid_get_len|]. intros i.
       apply cf_nid_bind; [apply cf_nid_get_cap|]. intros c.
       apply cf_nid_bind.
-      * apply cf_nid_on_unwind; [apply cf_nid_unwind_pair|].
+      * apply cf_nid_on_unwind; [apply cf_nid_unwind_args|].
         apply cf_nid_bind; [apply cf_nid_dbg_assert|]. intros _. apply cf_nid_check_index.
       * intros _. apply cf_nid_bind; [apply cf_nid_p_write_checked|]. intros _.
         apply cf_nid_bind; [apply cf_nid_set_len|]. intros _. apply cf_nid_ret.
@@ -3615,6 +3640,21 @@ Qed.
 Lemma cf_nid_drop_map : cf_nid (drop_map E).
 Proof. unfold drop_map. apply cf_nid_bind; [apply cf_nid_get_len | intros n; apply cf_nid_drop_range]. Qed.
 
+Lemma cf_nid_unwind_pair2 p : cf_nid (unwind_pair E p).
+Proof.
+  unfold unwind_pair. apply cf_nid_bind; [apply cf_nid_emit|]. intros _.
+  apply cf_nid_bind; [apply cf_nid_cbd; intros; apply HdK|]. intros _.
+  apply cf_nid_bind; [apply cf_nid_cbd; intros; apply HdV|]. intros _. apply cf_nid_ret.
+Qed.
+Lemma cf_nid_unwind_range n : forall i, cf_nid (unwind_range E n i).
+Proof.
+  induction n as [|n IH]; intros i; cbn [unwind_range]; [apply cf_nid_ret|].
+  apply cf_nid_bind; [apply cf_nid_p_read|]. intros p.
+  apply cf_nid_bind; [apply cf_nid_unwind_pair2 | intros _; apply IH].
+Qed.
+Lemma cf_nid_unwind_map : cf_nid (unwind_map E).
+Proof. unfold unwind_map. apply cf_nid_bind; [apply cf_nid_get_len | intros n; apply cf_nid_unwind_range]. Qed.
+
 Lemma cf_op_decode_acct (c : M unit) (g : nat -> nat) (L : nat) body (w : world) :
   WF (self w) ->
   (forall w0 : world, WF (self w0) ->
@@ -3651,7 +3691,7 @@ Proof.
                                   next_id (cb w') = (a + N.of_nat (g n))%N)).
     - exact (Hc (cf_fresh w) (cf_fresh_WF w)).
     - intros w1 (n & Hn & (Hw1 & Hc1 & lost & HP) & Hid).
-      pose proof (cf_wp_nid (drop_map E) _ _ w1 cf_nid_drop_map (drop_map_acct_nolost E w1 Hw1)) as Hd.
+      pose proof (cf_wp_nid (unwind_map E) _ _ w1 cf_nid_unwind_map (unwind_map_acct_nolost E w1 Hw1)) as Hd.
       unfold acct in HP. rewrite (cf_fresh_owned E) in HP. change (log (cf_fresh w)) with (log w) in HP.
       eapply wp_mono; [exact Hd | |]; cbn beta.
       + intros _ w2 [HA Hid2]. exists n, (owned E (self w2) ++ lost). split; [exact Hn|]. split; [congruence|].
